@@ -1022,7 +1022,7 @@ impl TcpSession {
                 );
             }
 
-            proxy.sessions.borrow_mut().slab.try_remove(token.0);
+            proxy.sessions.borrow_mut().release(token.0);
         }
         self.remove_backend();
 
@@ -1312,11 +1312,7 @@ impl ProxySession for TcpSession {
                     e
                 );
             }
-            proxy
-                .sessions
-                .borrow_mut()
-                .slab
-                .try_remove(self.frontend_token.0);
+            proxy.sessions.borrow_mut().release(self.frontend_token.0);
         }
 
         self.close_backend();
